@@ -803,6 +803,27 @@ structure Proc where
 def natMax (l : List Nat) : Nat := l.foldl max 0
 def natMin (l : List Nat) : Nat := match l with | [] => 0 | x :: xs => xs.foldl min x
 
+/-- the line for refinement level `rl` (`none`: no key at this level) -/
+def levelOne (fkeys : List (Str × KeyInfo)) (rl : Nat) : Except Err (Option Line) :=
+  let keysrl := fkeys.filter fun k => k.2.rl == some rl
+  match keysrl with
+  | [] => .ok none
+  | k0 :: _ =>
+    let chosen : Except Err Str := match k0.2.c with
+      | some _ =>
+        if keysrl.any (fun k => k.2.c.isNone) then .error Err.typeError
+        else .ok ([' ', 'c', '='] ++ toDec (natMax (keysrl.filterMap fun k => k.2.c)))
+      | none => .ok []
+    match chosen with
+    | .error e => .error e
+    | .ok chosen =>
+      let keysrl := keysrl.filter fun k => isInfix chosen k.1
+      let allits := sortNat (keysrl.map fun k => k.2.it)
+      match allits with
+      | a :: b :: _ => .ok (some (Line.arange rl (natMin allits) (natMax allits) (b - a)))
+      | [x] => .ok (some (Line.single rl x))
+      | [] => .ok none
+
 /-- the per-level lines for the keys of the representative file; the lines of
 the levels before a failing one are already written when the exception occurs -/
 def levelLines (fkeys : List (Str × KeyInfo)) (rlmax : Nat) : List Line × Option Err :=
@@ -810,25 +831,55 @@ def levelLines (fkeys : List (Str × KeyInfo)) (rlmax : Nat) : List Line × Opti
       match acc.2 with
       | some _ => acc
       | none =>
-        let ls := acc.1
-        let keysrl := fkeys.filter fun k => k.2.rl == some rl
-        match keysrl with
-        | [] => acc
-        | k0 :: _ =>
-          let chosen : Except Err Str := match k0.2.c with
-            | some _ =>
-              if keysrl.any (fun k => k.2.c.isNone) then .error Err.typeError
-              else .ok ([' ', 'c', '='] ++ toDec (natMax (keysrl.filterMap fun k => k.2.c)))
-            | none => .ok []
-          match chosen with
-          | .error e => (ls, some e)
-          | .ok chosen =>
-            let keysrl := keysrl.filter fun k => isInfix chosen k.1
-            let allits := sortNat (keysrl.map fun k => k.2.it)
-            match allits with
-            | a :: b :: _ => (ls ++ [Line.arange rl (natMin allits) (natMax allits) (b - a)], none)
-            | [x] => (ls ++ [Line.single rl x], none)
-            | [] => (ls, none)) ([], none)
+        match levelOne fkeys rl with
+        | .error e => (acc.1, some e)
+        | .ok none => acc
+        | .ok (some l) => (acc.1 ++ [l], none)) ([], none)
+
+/-- the keys of `vars_and_files` tried as representative, in order -/
+def candidates (vf : VarsAndFiles) : List (List Str) :=
+  let singles := (vf.map (·.1)).filter fun k => k.length == 1
+  if singles == [] then vf.map (·.1) else singles.filter fun k => !k.contains sNaNmask
+
+/-- `(file_to_read, file_for_it)` after the search loop (all files are
+readable): the first candidate's first file, or whatever the previous loop
+iteration left in these local variables -/
+def foundFile (vf : VarsAndFiles) (stale : Option (Bool × Str)) : Except Err (Option (Bool × Str)) :=
+  match candidates vf with
+  | k :: _ => match (dget vf k).bind (·.head?) with
+    | some f => .ok (some (true, f))
+    | none => .error .indexError
+  | [] => .ok stale
+
+/-- keys of every file of the simulation by full path -/
+def allFiles (S : Sim) : List (Str × List Str) :=
+  (S.restarts.map fun d =>
+    d.files.map fun h => (restartPath S.simpath S.simname d.nbr ++ h.name, h.keys)).flatten
+
+/-- `if file_to_read:` … : the lines after the variables line, and the exception if any -/
+def dataCore (S : Sim) (found : Option (Bool × Str)) : List Line × Option Err :=
+  match found with
+  | none => ([], some .nameError)
+  | some (false, _) => ([], none)
+  | some (true, f) =>
+    let l2 := [Line.reading f]
+    match dget (allFiles S) f with
+    | none => (l2, some .keyError)  -- OSError: file vanished
+    | some keys =>
+      match keys.findSome? fun k => (parseKey k).map (·.var) with
+      | none => (l2, some (if keys == [] then .nameError else .typeError))
+      | some varkey =>
+        let fk := keys.filter fun k => isInfix varkey k
+        match fk.mapM fun k => (parseKey k).map fun i => (k, i) with
+        | none => (l2, some .typeError)
+        | some fkeys =>
+          let its := fkeys.map fun k => k.2.it
+          let l3 := l2 ++ [Line.its (natMin its) (natMax its)]
+          if fkeys.any (fun k => k.2.rl.isNone) then (l3, some .typeError)
+          else
+            let rlmax := natMax (fkeys.filterMap fun k => k.2.rl)
+            let ll := levelLines fkeys rlmax
+            (l3 ++ ll.1, ll.2)
 
 /-- the data part of one restart (everything before the checkpoint listing) -/
 def dataLines (T : Tables) (S : Sim) (dir : RestartDir) (vf : VarsAndFiles)
@@ -838,42 +889,11 @@ def dataLines (T : Tables) (S : Sim) (dir : RestartDir) (vf : VarsAndFiles)
     { lines := [.noData (restartPath S.simpath S.simname dir.nbr)], stale := stale, err := none }
   else
     let l1 := [Line.vars (transformGroups T varsAvail)]
-    let singles := (vf.map (·.1)).filter fun k => k.length == 1
-    let cands := if singles == [] then vf.map (·.1) else singles.filter fun k => !k.contains sNaNmask
-    -- first candidate (all files are readable): file_for_it = vars_and_files[k][0]
-    let found : Except Err (Option (Bool × Str)) :=
-      match cands with
-      | k :: _ => match (dget vf k).bind (·.head?) with
-        | some f => .ok (some (true, f))
-        | none => .error .indexError
-      | [] => .ok stale
-    match found with
+    match foundFile vf stale with
     | .error e => { lines := l1, stale := stale, err := some e }
-    | .ok none => { lines := l1, stale := none, err := some .nameError }
-    | .ok (some (false, f)) => { lines := l1, stale := some (false, f), err := none }
-    | .ok (some (true, f)) =>
-      let st := some (true, f)
-      let l2 := l1 ++ [Line.reading f]
-      -- keys of file_for_it (looked up among the files of this restart by full path)
-      let allFiles := (S.restarts.map fun d =>
-        d.files.map fun h => (restartPath S.simpath S.simname d.nbr ++ h.name, h.keys)).flatten
-      match dget allFiles f with
-      | none => { lines := l2, stale := st, err := some .keyError }  -- OSError: file vanished
-      | some keys =>
-        match keys.findSome? fun k => (parseKey k).map (·.var) with
-        | none => { lines := l2, stale := st, err := some (if keys == [] then .nameError else .typeError) }
-        | some varkey =>
-          let fk := keys.filter fun k => isInfix varkey k
-          match fk.mapM fun k => (parseKey k).map fun i => (k, i) with
-          | none => { lines := l2, stale := st, err := some .typeError }
-          | some fkeys =>
-            let its := fkeys.map fun k => k.2.it
-            let l3 := l2 ++ [Line.its (natMin its) (natMax its)]
-            if fkeys.any (fun k => k.2.rl.isNone) then { lines := l3, stale := st, err := some .typeError }
-            else
-              let rlmax := natMax (fkeys.filterMap fun k => k.2.rl)
-              let ll := levelLines fkeys rlmax
-              { lines := l3 ++ ll.1, stale := st, err := ll.2 }
+    | .ok fnd =>
+      let c := dataCore S fnd
+      { lines := l1 ++ c.1, stale := fnd, err := c.2 }
 
 /-- checkpoint iterations of one restart -/
 def checkpointIts (path : Str) (files : List H5File) : Except Err (List Nat) := do
@@ -889,22 +909,29 @@ def checkpointIts (path : Str) (files : List H5File) : Except Err (List Nat) := 
     if i < 0 then throw Err.valueError else pure i.toNat
   pure (dedup (sortNat its))
 
+/-- the lines of one restart once the data part is known: checkpoint listing,
+and the iteration range taken from the checkpoints when there is no 3D data -/
+def finishLines (nbr : Nat) (dl : List Line) (derr : Option Err) (cp : Except Err (List Nat)) :
+    List Line × Option Err :=
+  let head := [Line.restart nbr]
+  match derr with
+  | some e => (head ++ dl, some e)
+  | none =>
+    match cp with
+    | .error e => (head ++ dl, some e)
+    | .ok cps =>
+      let hasIts := dl.any fun l => match l with | .its _ _ => true | _ => false
+      if hasIts then (head ++ dl ++ [.chk cps], none)
+      else if cps == [] then (head ++ dl, some .valueError)
+      else (head ++ dl ++ [.its (natMin cps) (natMax cps), .chk cps], none)
+
 /-- one pass of the `for restart in all_restarts` loop -/
 def processRestart (T : Tables) (S : Sim) (dir : RestartDir) (vf : VarsAndFiles)
     (stale : Option (Bool × Str)) : Proc :=
-  let head := [Line.restart dir.nbr]
   let d := dataLines T S dir vf stale
-  match d.err with
-  | some e => { lines := head ++ d.lines, stale := d.stale, err := some e }
-  | none =>
-    match checkpointIts (restartPath S.simpath S.simname dir.nbr) dir.files with
-    | .error e => { lines := head ++ d.lines, stale := d.stale, err := some e }
-    | .ok cps =>
-      let hasIts := d.lines.any fun l => match l with | .its _ _ => true | _ => false
-      if hasIts then { lines := head ++ d.lines ++ [.chk cps], stale := d.stale, err := none }
-      else if cps == [] then { lines := head ++ d.lines, stale := d.stale, err := some .valueError }
-      else { lines := head ++ d.lines ++ [.its (natMin cps) (natMax cps), .chk cps],
-             stale := d.stale, err := none }
+  let f := finishLines dir.nbr d.lines d.err
+    (checkpointIts (restartPath S.simpath S.simname dir.nbr) dir.files)
+  { lines := f.1, stale := d.stale, err := f.2 }
 
 /-- restarts still to be processed -/
 def todo (S : Sim) (skipLast : Bool) (done : List Int) : List Nat :=
